@@ -21,7 +21,7 @@ def general_points(seed, n, d, scale=10.0):
     """n points in general position (jittered lattice; min pairwise distance bounded
     below), O(scale)."""
     g = rs(seed)
-    while True:
+    for _attempt in range(500):
         p = g.uniform(-1.0, 1.0, size=(n, d)) * scale
         p += np.arange(n)[:, None] * 0.37 * (scale / max(n, 1)) * np.array([1.0, -0.6, 0.3][:d])
         diff = p[:, None, :] - p[None, :, :]
@@ -30,6 +30,16 @@ def general_points(seed, n, d, scale=10.0):
         sv = np.linalg.svd(c, compute_uv=False)
         if dist.min() > 0.08 * scale and (n <= d or sv[-1] > 0.15 * scale):
             return p
+    raise RuntimeError("general_points(%r, n=%d, d=%d): no configuration in general position found" % (seed, n, d))
+
+
+def distinct_points(seed, n, d, scale=50.0):
+    """n pairwise distinct points (jittered distinct lattice cells); any n."""
+    g = rs(seed)
+    side = int(np.ceil(n ** (1.0 / d))) + 1
+    cells = g.permutation(side ** d)[:n]
+    coords = np.stack(np.unravel_index(cells, (side,) * d), 1).astype(float)
+    return (coords + g.uniform(-0.3, 0.3, size=coords.shape)) * (scale / side)
 
 
 def random_rotation(g, d, min_deg=5.0):
